@@ -454,6 +454,9 @@ class Recorder:
                 self.ev('expect_added', name=self.it.nb(st['name']))
             elif op == 'ladd':
                 self.add_listener(st.get('raise_every', 0))
+            elif op == 'expect_mc':
+                r = st['rec']
+                self.ev('expect_mc', rid=self.it.rid(r[0], r[1], r[2], wire.rd_key(r[1], self._rd(r)) if r[1] != wire.T_PTR else low(r[3])), since=st['since'])
             elif op == 'busy_at':
                 # loop latency: a callback that runs at instant st['when'] keeps the loop busy for st['ms'] milliseconds (the
                 # clock moves while the callbacks queued behind it are still waiting; timers that fall due meanwhile are
